@@ -371,7 +371,15 @@ def _dist_strategy(tier):
         method, strat = draw(st.sampled_from([("replacement", None), ("single_pass", None),
                                               ("single_pass", "by_label"),
                                               ("replacement", "by_label"), ("dynamic", None), ("proportion", None), ("proportion", None)]))
-        return dict(n=n, m=m, ep=draw(ez), en=draw(ez), sc=draw(st.sampled_from(["pos", "neg"])),
+        ep, en = draw(ez), draw(ez)
+        if method == "replacement" and draw(st.integers(0, 2)) == 0:
+            # a class without a single scored sample, present only through its easy samples (the property
+            # covers empty classes for replacement sampling only; single-pass sampling divides by the class size)
+            if draw(st.booleans()):
+                n, ep = 0, draw(st.sampled_from([5, 20, 60]))
+            else:
+                m, en = 0, draw(st.sampled_from([5, 20, 60]))
+        return dict(n=n, m=m, ep=ep, en=en, sc=draw(st.sampled_from(["pos", "neg"])),
                     method=method, strat=strat, seed=draw(gen.RNG_SEED), K=K,
                     ratio=draw(st.sampled_from([0.02, 0.05, 0.05, 0.3, 0.6])) if method == "proportion" else None)
 
@@ -451,6 +459,8 @@ def _dist_stats(case, seed, K):
                           f"(|sum-K*e|={d:.1f} > bound {t:.1f} over K={K})")
     t = _bernstein(1.3 * K)
     for cnt, nm in ((cp, "positive"), (cn, "negative")) if case.get("per_score", True) else ():
+        if not len(cnt):
+            continue
         d = np.abs(cnt - K)
         worst = max(worst, float(d.max()) / t)
         if d.max() > t:
